@@ -144,6 +144,12 @@ def validate_before_write(F, R):
     def intrinsic_sites(p, b):
         out = []
         for bi, jj, st in agg_sites(b, r'^std::result::Result$', 'Err'):
+            if err_variant(b, st) == '?' and st['rv']['fields']:
+                # `Err(e) => Err(e)` of a crate-local callee's result (an expanded `a.and_then(|()| b)`, a hand-written
+                # `match`): the failure is the callee's, it is examined there - this is propagation, like `?`
+                og_ = Origin(b).of_operand(st['rv']['fields'][0])
+                if any(l[0] == 'call' and (l[1] in bodies or any(q in bodies for q in F.call_targets(b.blocks[l[2]]['term']))) for l in og_ if l[0] == 'call' and isinstance(l[2], int)) and not any(l[0] in ('agg', 'const') for l in og_):
+                    continue
             out.append((bi, 'Err(%s)' % err_variant(b, st)))
         for bi, t, qs in calls[p]:
             nm = callee_name(t) or ''
